@@ -1,6 +1,7 @@
 """C13 — Unpack changes only what the config mentions and nothing when it fails."""
 from ..gens import *
 from .. import typegen as TG
+from .. import catalog as CAT
 
 ID = "C13"
 LEAN_MODULE = "Ucfg.Props.C13"
@@ -16,7 +17,13 @@ TRUSTED_BASE = ["Lean 4 kernel", "Model/Unpack.lean (reifyStruct as copy -> per-
                 "the worker's before/after snapshot", "correspondence harness"]
 ASSUMPTIONS = ["'unchanged' is shallow: contents of maps and pointed-to objects the struct shares may differ (the statement's exemption)",
                "no InitDefaults methods (reflect.StructOf types)"]
-normalize_result = TG.normalize_unpack_result
+def normalize_pair(case, impl, model):
+    if case.get("k") == "catalog":
+        return CAT.normalize_pair(case, impl, model)
+    return TG.normalize_unpack_result(case, impl), TG.normalize_unpack_result(case, model)
+
+
+oracle = CAT.oracle_c13
 
 
 def gen(rng, tier):
@@ -37,6 +44,10 @@ def gen(rng, tier):
              "_nt": old is not None and (len(cfg["m"]) < len(ty["f"]) or bool(fault and "path" in fault[1])),
              "_sig": "%s|%s|%s" % (TG.type_sig(ty), mentioned, fault[0] + "@" + fault[1].get("path", "-") if fault else "-")}
         yield c
+    # named types with Validate / InitDefaults methods next to their method-less twins
+    crng = rng.fork("catalog")
+    for _ in range(n // 4):
+        yield CAT.cat_case(crng)
 
 
 fix_candidate = TG.fix_typed_candidate
